@@ -180,6 +180,44 @@ def obs_events(chk):
                 else:
                     ev.update(positive=False, shape_dev=0, rho_exposed=False, const_dev=0)
                 batch.add(ev, {'cls': name, 'dt': dt, 'N': N, 'nfft': nfft, 'sampling': sampling, 'seed': chk.seed})
+    # the classes after attribute changes on a live object: the exposed model is the functional estimate for
+    # the *current* attribute values (python and numpy integer arguments)
+    import spectrum as sp
+    for rep in range(4 if chk.tier == 'quick' else 30):
+        dt = ('real', 'complex')[rep % 2]
+        N = int(rng.choice([32, 64]))
+        x = zoo.signal(rng, N, dt == 'complex', 'arma')
+        for name in ('parma', 'pma'):
+            ev = {'ev': 'live', 'cls': name, 'dt': dt}
+
+            def run_live():
+                devs = []
+                if name == 'parma':
+                    p = sp.parma(x.copy(), 3, 3, 12, NFFT=64)
+                    p.psd
+                    for lag, P, Q, wrap in ((14, 3, 3, np.int64), (14, 2, 2, int), (10, 2, 2, int), (12, 2, 2, np.int32)):
+                        p.lag = wrap(lag)
+                        p.ar_order = P
+                        p.ma_order = Q
+                        p.psd
+                        a, b, rho = sp.arma_estimate(x.astype(complex) if dt == 'complex' else x.copy(), P, Q, lag)
+                        devs += [zoo.rel_dev(p.ar, a), zoo.rel_dev(p.ma, b), abs(p.rho - rho) / abs(rho)]
+                else:
+                    p = sp.pma(x.copy(), 3, 10, NFFT=64)
+                    p.psd
+                    for Q, Mo in ((2, 10), (2, 8), (4, 9)):
+                        p.ma_order = Q
+                        p.ar_order = Mo
+                        p.psd
+                        b, rho = sp.ma(x.copy(), Q, Mo)
+                        devs += [zoo.rel_dev(p.ma, b), abs(p.rho - rho) / abs(rho)]
+                return max(devs)
+            ok, d = call_guard(run_live)
+            ev['raised'] = not ok
+            ev['dev'] = obs.q(d) if ok else 0
+            if not ok:
+                ev['exc'] = repr(d)[:100]
+            batch.add(ev, {'cls': name, 'dt': dt, 'seed': chk.seed, 'rep': rep})
     obs.validate(chk, batch, 'obs-models', lambda ev, cl: 'C15:OBS:%s:%s:%s' % (ev['ev'], ev.get('cls', 'P<=4' if ev.get('P', 0) <= 4 else 'P>4') if ev['ev'] != 'ma' else '', cl),
                  lambda ev, cl: 'clause "%s" fails: %s' % (cl, ev))
     chk.sample('obs-event', batch.events[1], 1)
